@@ -3,6 +3,7 @@ package main
 import (
 	"fmt"
 	"go/types"
+	"os"
 	"sort"
 	"strings"
 
@@ -15,6 +16,9 @@ func (t *FnTrans) mapComps(mt *types.Map) (dom, val, ln string) {
 	ks, vs := t.sortOf(mt.Key()), t.sortOf(mt.Elem())
 	base := "M." + mangle(ks) + "." + mangle(vs)
 	dom = t.comp(base+".dom", "(Array Int (Array "+ks+" Bool))")
+	if _, has := t.compT[base+".val"]; !has {
+		t.compT[base+".val"] = t.resolve(mt.Elem())
+	}
 	val = t.comp(base+".val", "(Array Int (Array "+ks+" "+vs+"))")
 	ln = t.comp(base+".len", "(Array Int Int)")
 	return
@@ -355,6 +359,9 @@ func (t *FnTrans) ghostAssign(g *Clause, env *Env, lhsE *Expr, val string, havoc
 			val = t.newConst(c+"@choose", s)
 		}
 		t.set(c, val)
+		if os.Getenv("GOVC_DEBUG_TP") != "" {
+			fmt.Fprintf(os.Stderr, "ghostAssign %s := %.80s\n", c, val)
+		}
 		if !havoc {
 			t.checkGlobalInv("ghost update of " + lhsE.Name)
 		}
@@ -1013,6 +1020,9 @@ func (t *FnTrans) staticMod(x *Expr, ptypes map[string]types.Type, pkg *types.Pa
 	case x.Op == "id" && x.Name == "everything":
 		return false
 	case x.Op == "id" && x.Name == "nothing":
+		return true
+	case x.Op == "id" && x.Name == "chans":
+		t.w(l, "CH.closed", "(Array Int Bool)")
 		return true
 	case x.Op == "call" && x.Name == "elems":
 		T := t.staticType(x.Args[0], ptypes)
